@@ -38,6 +38,14 @@ def _kinds():
             "invalid": "x",
             "probe": ("4", 4),
         },
+        "float": {
+            "field": lambda: __import__("cincoconfig").FloatField(min=0, max=9),
+            "other": lambda: __import__("cincoconfig").FloatField(),
+            "norm": lambda x: float(x),
+            "raw": [1, "2.5", V.F(3.0)],
+            "invalid": "x",
+            "probe": ("4", 4.0),
+        },
         "str": {
             "field": lambda: StringField(transform_case="lower", transform_strip=True, max_len=3),
             "other": lambda: StringField(),
@@ -440,9 +448,9 @@ def model_states(container, kind, maxlen):
 # jobs
 # ---------------------------------------------------------------------------------------------
 def bounds(tier):
-    return {"list_kinds": ["int", "str"] if tier == "thorough" else ["int", "str"],
-            "list_maxlen": {"int": 5 if tier == "thorough" else 3, "str": 5 if tier == "thorough" else 3},
-            "dict_kinds": ["str-int"], "dict_maxlen": 2}
+    return {"list_kinds": ["int", "str", "float"] if tier == "thorough" else ["int", "str"],
+            "list_maxlen": {"int": 5 if tier == "thorough" else 3, "str": 6 if tier == "thorough" else 3, "float": 4},
+            "dict_kinds": ["str-int"], "dict_maxlen": 3 if tier == "thorough" else 2}
 
 
 def jobs(tier):
